@@ -361,6 +361,49 @@ tokenizer = cssutils.tokenize2.Tokenizer()
 savedTokens = []
 
 
+class _SorTokenStream:
+    "see ProdParser._SorTokens"
+
+    def __init__(self, tokens, types):
+        self._tokens = iter(tokens)
+        self._types = types
+        self._until = None
+        self._queue = []
+
+    def arm(self, until):
+        self._until = until
+
+    def __iter__(self):
+        return self
+
+    def __next__(self):
+        if self._queue:
+            return self._queue.pop(0)
+        token = next(self._tokens)
+        if self._until is None:
+            return token
+        if token[0] == self._types.S:
+            try:
+                next_ = next(self._tokens)
+                while next_[0] == self._types.S:
+                    # S S, e.g. around a comment which is not parsed
+                    next_ = next(self._tokens)
+            except StopIteration:
+                return token
+            if next_[1] in self._until or next_[0] == self._types.COMMENT:
+                # omit S as e.g. ``,`` has been found; pass COMMENT
+                return next_
+            self._queue.append(next_)
+            return token
+        elif token[0] == self._types.COMMENT:
+            # pass COMMENT
+            return token
+        else:
+            # normal mode again
+            self._until = None
+            return token
+
+
 class ProdParser:
     """Productions parser."""
 
@@ -401,37 +444,18 @@ class ProdParser:
             return text
 
     def _SorTokens(self, tokens, until=',/'):
-        """New tokens generator which has S tokens removed,
-        if followed by anything in ``until``, normally a ``,``."""
-        for token in tokens:
-            if token[0] == self.types.S:
-                try:
-                    next_ = next(tokens)
-                    while next_[0] == self.types.S:
-                        # S S, e.g. around a comment which is not parsed
-                        next_ = next(tokens)
-                except StopIteration:
-                    yield token
-                else:
-                    if next_[1] in until:
-                        # omit S as e.g. ``,`` has been found
-                        yield next_
-                    elif next_[0] == self.types.COMMENT:
-                        # pass COMMENT
-                        yield next_
-                    else:
-                        yield token
-                        yield next_
+        """Token stream which has S tokens removed, if followed by anything
+        in ``until``, normally a ``,``, up to the next token which is
+        neither S nor a comment.
 
-            elif token[0] == self.types.COMMENT:
-                # pass COMMENT
-                yield token
-            else:
-                yield token
-                break
-        # normal mode again
-        for token in tokens:
-            yield token
+        The stream is wrapped ONCE and armed again for every following
+        value: wrapping it in a new generator each time nests them as deep
+        as a value has components (RecursionError for ~1000 of them).
+        """
+        if not isinstance(tokens, _SorTokenStream):
+            tokens = _SorTokenStream(tokens, self.types)
+        tokens.arm(until)
+        return tokens
 
     def parse(  # noqa: C901
         self,
